@@ -135,6 +135,7 @@ def integerize_arch(model: nn.Module,
     name = model.__class__.__name__
     mod = fx.GraphModule(tracer.root, graph, name)
     modules = dict(mod.named_modules())
+    converted = set()
     for n in mod.graph.nodes:
         m = modules.get(n.target)
         # The input quantizer is kept and forced to return integer outputs
@@ -142,9 +143,11 @@ def integerize_arch(model: nn.Module,
             m = cast(Quantizer, m)
             m.dequantize = False
         # Target layers are automagically converted with their backend-specific ver
-        if isinstance(m, target_layers):
+        # (a layer invoked twice is converted once, at its first call site)
+        if isinstance(m, target_layers) and n.target not in converted:
             m = cast(qnn.QuantModule, m)
             m.export(n, mod, backend, backend_kwargs)
+            converted.add(n.target)
     if backend == Backend.MAUPITI:
         # Remove relu
         mod = remove_relu(mod)
